@@ -40,7 +40,54 @@ fn parse_hex(s: &str) -> u32 {
     u32::from_str_radix(s.trim().trim_start_matches("0x"), 16).unwrap_or_else(|_| tool_error(&format!("hex {}", s)))
 }
 
+fn parse_num(s: &str) -> Option<u32> {
+    let t = s.trim().trim_end_matches("u32").trim_end_matches('_');
+    if let Some(h) = t.strip_prefix("0x").or_else(|| t.strip_prefix("0X")) {
+        u32::from_str_radix(&h.replace('_', ""), 16).ok()
+    } else {
+        t.replace('_', "").parse().ok()
+    }
+}
+
+/// tolerant of other spellings of the same entry: `Codepoints::Range(0x41..=0x5a)`, decimal numbers, other paths to
+/// RangeInclusive::new
+fn parse_entry_alt(s: &str) -> Option<(Codepoints, usize)> {
+    let i = s.find("Codepoints::Range(")?;
+    let rest = &s[i + "Codepoints::Range(".len()..];
+    if let Some(j) = rest.find("..=") {
+        let a = parse_num(&rest[..j])?;
+        let tail = &rest[j + 3..];
+        let k = tail.find(')')?;
+        let b = parse_num(&tail[..k])?;
+        return Some((Codepoints::Range(std::ops::RangeInclusive::new(a, b)), i + "Codepoints::Range(".len() + j + 3 + k + 1));
+    }
+    if let Some(j) = rest.find("new(") {
+        let inner = &rest[j + 4..];
+        let k = inner.find(')')?;
+        let mut parts = inner[..k].split(',');
+        let a = parse_num(parts.next()?)?;
+        let b = parse_num(parts.next()?)?;
+        return Some((Codepoints::Range(std::ops::RangeInclusive::new(a, b)), i + "Codepoints::Range(".len() + j + 4 + k + 2));
+    }
+    None
+}
+
 fn parse_entry(s: &str) -> Option<(Codepoints, usize)> {
+    if let Some(i) = s.find("Codepoints::Single(") {
+        let rest = &s[i + "Codepoints::Single(".len()..];
+        if let Some(j) = rest.find(')') {
+            if let Some(v) = parse_num(&rest[..j]) {
+                return Some((Codepoints::Single(v), i + "Codepoints::Single(".len() + j + 1));
+            }
+        }
+    }
+    if s.contains("Codepoints::Range(") && !s.contains("Codepoints::Range(std::ops::RangeInclusive::new(0x") {
+        return parse_entry_alt(s);
+    }
+    parse_entry_strict(s)
+}
+
+fn parse_entry_strict(s: &str) -> Option<(Codepoints, usize)> {
     // returns the entry and the index just after it
     if let Some(i) = s.find("Codepoints::Single(") {
         let rest = &s[i + "Codepoints::Single(".len()..];
@@ -59,12 +106,24 @@ fn parse_entry(s: &str) -> Option<(Codepoints, usize)> {
     None
 }
 
+/// declared array length of `static NAME: [T; N] = [`
+fn declared_len(line: &str) -> Option<usize> {
+    let a = line.rfind(';')?;
+    let b = line[a..].find(']')? + a;
+    line[a + 1..b].trim().parse().ok()
+}
+
 pub fn parse_tables(src: &str) -> Tables {
     let mut t = Tables { gc: vec![], vir: vec![], un: vec![], bidi: vec![], wm: vec![] };
     let mut cur = String::new();
+    let mut declared: Vec<(String, usize)> = Vec::new();
     for line in src.lines() {
-        if line.starts_with("static ") {
-            cur = line.split(':').next().unwrap().trim_start_matches("static ").trim().to_string();
+        let lt = line.trim_start().trim_start_matches("pub ").trim_start_matches("(crate) ");
+        if lt.starts_with("static ") || lt.starts_with("const ") {
+            cur = lt.split(':').next().unwrap().trim_start_matches("static ").trim_start_matches("const ").trim().to_string();
+            if let Some(n) = declared_len(lt) {
+                declared.push((cur.clone(), n));
+            }
             continue;
         }
         if line.starts_with("];") {
@@ -91,6 +150,20 @@ pub fn parse_tables(src: &str) -> Tables {
                 }
                 _ => {}
             }
+        }
+    }
+    // if the emitted source could not be interpreted completely this is a defect of the harness' reader, not of the generators
+    for (name, n) in declared {
+        let got = match name.as_str() {
+            "T_GC" => t.gc.len(),
+            "T_VIR" => t.vir.len(),
+            "T_UN" => t.un.len(),
+            "T_BIDI" => t.bidi.len(),
+            "T_WM" => t.wm.len(),
+            _ => n,
+        };
+        if got != n {
+            tool_error(&format!("cannot interpret the emitted table {}: {} entries declared, {} read", name, n, got));
         }
     }
     t
@@ -150,6 +223,11 @@ pub fn replay_gen(doc: &Value, t: &mut Tally) {
                 continue;
             }
             Ok(Err(e)) => {
+                // a First line at the very end of the file: silently ignoring it (the code today) and rejecting the
+                // file are both acceptable; nothing in the property decides
+                if doc["dangling"].as_bool().unwrap_or(false) {
+                    continue;
+                }
                 t.mismatch(json!({"k": "gen", "base": base, "lines": doc["lines"], "actual": format!("generator error: {}", e)}));
                 continue;
             }
@@ -189,7 +267,8 @@ pub fn replay_gen(doc: &Value, t: &mut Tally) {
             if json!(vir) != *expected_at(&doc["vir"], mcp) {
                 diffs.push(json!({"cp": mcp, "table": "virama", "actual": vir}));
             }
-            if json!(un) != *expected_at(&doc["un"], mcp) {
+            let exp_un = expected_at(&doc["un"], mcp).as_str().unwrap_or("either");
+            if exp_un != "either" && (exp_un == "yes") != un {
                 diffs.push(json!({"cp": mcp, "table": "unassigned", "actual": un}));
             }
             if json!(bidi) != *expected_at(&doc["bidi"], mcp) {
@@ -234,13 +313,14 @@ pub fn replay_generr(doc: &Value, t: &mut Tally) {
         drop(f);
         t.executions += 1;
         let res = std::panic::catch_unwind(|| run_generators(&dir));
+        // the wording of the error is not specified: any error is a rejection; accepting or panicking is not
         let got = match res {
             Err(_) => "panic".to_string(),
             Ok(Ok(_)) => "accepted".to_string(),
-            Ok(Err(e)) => e,
+            Ok(Err(e)) => format!("error: {}", e),
         };
-        if !got.contains(want) {
-            t.mismatch(json!({"k": "generr", "base": base, "lines": doc["lines"], "expected_error": want, "actual": got}));
+        if !got.starts_with("error: ") {
+            t.mismatch(json!({"k": "generr", "base": base, "lines": doc["lines"], "expected": format!("an error (the code today says: {})", want), "actual": got}));
         }
     }
     t.nontrivial += 1;
